@@ -64,47 +64,99 @@ def parse_class(body):
     return neg, frozenset(s)
 
 
+WS_SET = frozenset({0x20, 0x09, 0x0a, 0x0b, 0x0c, 0x0d})
+ALL = frozenset(range(1, 128))
+
+
 def parse_plugin_regex(pat):
-    """Supported: \\s* ; (lit|lit|...) capturing ; ([class]+) capturing ; escaped literal char.
-    Returns a list of elements: ("ws*",), ("alt", [lits]), ("run+", neg, set), ("lit", byte)."""
+    """Translates the regex into a flat list of elements:
+         ("gopen",) ("gclose",)                capturing group boundaries
+         ("alt", [words])                      alternation of plain words (must be a whole group)
+         ("cls", set)  ("run+", set)  ("run*", set)     one char / greedy runs of a character set (ASCII)
+       Supported syntax: \s  \s*  \s+ ; [class] [class]+ [class]* (negated or not) ; escaped or plain literal chars;
+       capturing groups containing an alternation of words or a concatenation of the atoms above.
+       Greedy runs are matched maximally without backtracking; this is exact only if the run's set is disjoint from
+       everything that can follow it, which is checked (else: not regenerable)."""
     els = []
     i = 0
+    def atom_set(i):
+        """parse one char-set atom at i -> (set, next index) or None"""
+        if pat.startswith("\\s", i):
+            return WS_SET, i + 2
+        if pat[i] == "[":
+            j = i + 1
+            while pat[j] != "]" or pat[j - 1] == "\\":
+                j += 1
+            neg, cs = parse_class(pat[i + 1:j])
+            return (frozenset(ALL - cs) if neg else cs), j + 1
+        if pat[i] == "\\":
+            return frozenset([ord(pat[i + 1])]), i + 2
+        if pat[i] in "*+?{}|^$.()":
+            return None
+        return frozenset([ord(pat[i])]), i + 1
     while i < len(pat):
-        if pat.startswith("\\s*", i):
-            els.append(("ws*",))
-            i += 3
-            continue
-        if pat[i] == "(":
+        c = pat[i]
+        if c == "(":
+            if pat.startswith("(?", i):
+                raise Inconclusive("encoding not regenerable: non-capturing / flag groups are outside the supported subset")
             j = pat.index(")", i)
             inner = pat[i + 1:j]
-            if inner.startswith("["):
-                m = need(re.fullmatch(r"\[((?:[^\]\\]|\\.)*)\]\+", inner), "capturing group %r" % inner)
-                neg, cs = parse_class(m.group(1))
-                els.append(("run+", neg, cs))
-            else:
-                lits = inner.split("|")
-                for l in lits:
-                    need(re.fullmatch(r"[A-Za-z_]+", l), "alternative %r is not a plain word" % l)
-                els.append(("alt", lits))
-            i = j + 1
+            if re.fullmatch(r"[A-Za-z_]+(\|[A-Za-z_]+)+", inner):
+                els.append(("gopen",)); els.append(("alt", inner.split("|"))); els.append(("gclose",))
+                i = j + 1
+                continue
+            els.append(("gopen",))
+            i += 1
             continue
-        if pat[i] == "\\":
-            els.append(("lit", ord(pat[i + 1])))
-            i += 2
+        if c == ")":
+            els.append(("gclose",))
+            i += 1
             continue
-        if pat[i] in "*+?[]{}|^$.":
-            raise Inconclusive("encoding not regenerable: regex construct %r outside the supported subset" % pat[i])
-        els.append(("lit", ord(pat[i])))
-        i += 1
-    caps = [k for k, e in enumerate(els) if e[0] in ("alt", "run+")]
-    if len(caps) != 3:
+        r = atom_set(i)
+        if r is None:
+            raise Inconclusive("encoding not regenerable: regex construct %r outside the supported subset" % c)
+        cs, i = r
+        if i < len(pat) and pat[i] in "+*":
+            els.append(("run" + pat[i], cs))
+            i += 1
+        elif i < len(pat) and pat[i] in "?{":
+            raise Inconclusive("encoding not regenerable: quantifier %r outside the supported subset" % pat[i])
+        else:
+            els.append(("cls", cs))
+    if [e[0] for e in els].count("gopen") != 3 or [e[0] for e in els].count("gclose") != 3:
         raise Inconclusive("encoding not regenerable: expected exactly three capture groups")
-    return els, caps
+    # determinism check: a greedy run must not be able to swallow the start of what follows
+    def first_sets(k):
+        """set of chars that can start a match of els[k:], following nullable elements"""
+        out = set()
+        while k < len(els):
+            e = els[k]
+            if e[0] in ("gopen", "gclose"):
+                k += 1
+                continue
+            if e[0] == "alt":
+                out |= {ord(w[0]) for w in e[1]}
+                return out
+            out |= set(e[1])
+            if e[0] == "run*":
+                k += 1
+                continue
+            return out
+        return out
+    for k, e in enumerate(els):
+        if e[0] in ("run+", "run*"):
+            if set(e[1]) & first_sets(k + 1):
+                raise Inconclusive("encoding not regenerable: a greedy run can overlap what follows it (backtracking semantics are not encoded)")
+    return els, None
 
 
 def extract():
     src = read_repo(F_PLUGIN)
-    m = need(re.search(r'static OPERATION_REGEX: Lazy<Regex> =\s*Lazy::new\(\|\|\s*\{?\s*Regex::new\(r"((?:[^"])*)"\)\.unwrap\(\)\s*\}?\s*\);', src), "OPERATION_REGEX literal")
+    i0 = src.find("static OPERATION_REGEX: Lazy<Regex>")
+    if i0 < 0:
+        raise Inconclusive("encoding not regenerable: OPERATION_REGEX not found")
+    decl = src[i0:src.index(";", i0) + 1]
+    m = need(re.fullmatch(r'static OPERATION_REGEX: Lazy<Regex> =\s*Lazy::new\(\|\|\s*\{?\s*Regex::new\(r"((?:[^"])*)"\)\s*\.unwrap\(\)\s*\}?\s*\);', decl), "OPERATION_REGEX declaration shape")
     pattern = m.group(1)
     fn = re.sub(r"\s+", " ", re.sub(r"//[^\n]*", "", extract_fn(src, "parse_iso_template_literal")))
     need(re.search(r"OPERATION_REGEX \.captures_iter\(first\.raw\.trim\(\)\) \.next\(\) \.map\(\|capture_group\| \{ (?:debug!\([^;]*\); )?ValidIsographTemplateLiteral \{ "
@@ -141,8 +193,8 @@ def extract():
     kws = re.findall(r'"(\w+)" => \{ (?:let \w+ = )?tokens\.parse_source_of_kind\( IsographLangTokenKind::Identifier,', pf)
     if sorted(kws) != ["entrypoint", "field", "pointer"]:
         raise Inconclusive("encoding not regenerable: keyword dispatch of parse_iso_literal changed: %r" % (kws,))
-    els, caps = parse_plugin_regex(pattern)
-    return dict(pattern=pattern, els=els, caps=caps, kinds=kinds, lexer_ws=sorted(ws), keywords=sorted(kws))
+    els, _ = parse_plugin_regex(pattern)
+    return dict(pattern=pattern, els=els, kinds=kinds, lexer_ws=sorted(ws), keywords=sorted(kws))
 
 
 # ---------------------------------------------------------------- symbolic regex matcher (leftmost-first, greedy runs)
@@ -197,30 +249,29 @@ class Matcher:
         """returns (ok, [(gstart, gend)] for capture groups) for a match attempt whose first element starts at concrete `start`"""
         ok = z3.BoolVal(True)
         p = z3.IntVal(start)
-        groups = []
+        groups, open_ = [], []
         for e in els:
-            if e[0] == "ws*":
-                tab = self.run_end(lambda c: in_set(c, TRIM_WS))
-                p = self.sel(tab, p)
+            if e[0] == "gopen":
+                open_.append(p)
+            elif e[0] == "gclose":
+                groups.append((open_.pop(), p))
             elif e[0] == "alt":
                 conds = [(self.lit_at(p, l), len(l)) for l in e[1]]
                 ok = z3.And(ok, z3.Or(*[c for c, _ in conds]))
                 np_ = p
                 for c, n in reversed(conds):
                     np_ = z3.If(c, p + n, np_)
-                groups.append((p, np_))
                 p = np_
-            elif e[0] == "run+":
-                neg, cs = e[1], e[2]
-                pred = (lambda c, cs=cs: z3.Not(in_set(c, cs))) if neg else (lambda c, cs=cs: in_set(c, cs))
-                tab = self.run_end(pred)
+            elif e[0] in ("run+", "run*"):
+                cs = e[1]
+                tab = self.run_end(lambda c, cs=cs: in_set(c, cs))
                 q = self.sel(tab, p)
-                ok = z3.And(ok, q > p)
-                groups.append((p, q))
+                if e[0] == "run+":
+                    ok = z3.And(ok, q > p)
                 p = q
             else:
                 ch = self.sel(self.T + [z3.BitVecVal(0, 8)], p)
-                ok = z3.And(ok, p < self.L, ch == e[1])
+                ok = z3.And(ok, p < self.L, in_set(ch, e[1]))
                 p = p + 1
         return ok, groups
 
@@ -385,15 +436,48 @@ def main():
         n_q = n_unsat = 0
         witnessed = set()
         solver_s = 0.0
-        for sh in all_shapes:
+        # the shape queries are independent: solve them in forked workers, collect (verdict, model text)
+        def worker(idxs):
+            out = []
+            for i in idxs:
+                r, q, chars = solve(all_shapes[i])
+                out.append([i, r, model_text(q.model(), chars).hex() if r == "sat" else None, q.time_s])
+            return out
+        nproc = 14
+        kids = []
+        for w in range(nproc):
+            rfd, wfd = os.pipe()
+            pid = os.fork()
+            if pid == 0:
+                os.close(rfd)
+                try:
+                    res = {"ok": worker(list(range(w, len(all_shapes), nproc)))}
+                except BaseException as e:
+                    res = {"err": repr(e)}
+                with os.fdopen(wfd, "w") as f:
+                    f.write(json.dumps(res))
+                os._exit(0)
+            os.close(wfd)
+            kids.append((pid, rfd))
+        solved = {}
+        for pid, rfd in kids:
+            with os.fdopen(rfd) as f:
+                data = f.read()
+            os.waitpid(pid, 0)
+            res = json.loads(data) if data else {"err": "worker died"}
+            if "err" in res:
+                raise Inconclusive("shape worker failed: " + res["err"])
+            for i, r, hx, ts_ in res["ok"]:
+                solved[i] = (r, hx, ts_)
+        for i, sh in enumerate(all_shapes):
             in_classes = [k for k in classes if classes[k](sh)]
-            r, q, chars = solve(sh)
+            r, hx, ts_ = solved[i]
             n_q += 1
-            solver_s += q.time_s
+            solver_s += ts_
             if r == "unsat":
                 n_unsat += 1
                 continue
-            text = model_text(q.model(), chars)
+            text = bytes.fromhex(hx)
             c_nat, p_nat = native([text])[0]
             disagree = c_nat != "ERR" and c_nat != p_nat
             if c_nat == "ERR":
@@ -433,7 +517,7 @@ def main():
                        "can differ from (keyword, type, field). Models are replayed with the real parser and the real regex crate.",
         "functions_encoded": ["swc_isograph_plugin OPERATION_REGEX + parse_iso_template_literal capture use + ArtifactType::from",
                               "isograph_lang_parser token_kind.rs (whitespace, Identifier, Period)", "parse_iso_literal keyword dispatch"],
-        "extracted": None if not X else {"pattern": X["pattern"], "elements": [list(e[:1]) + ([e[1]] if e[0] == "alt" else []) for e in X["els"]], "lexer_ws": X["lexer_ws"], "keywords": X["keywords"]},
+        "extracted": None if not X else {"pattern": X["pattern"], "elements": [[e[0]] + ([e[1]] if e[0] == "alt" else [len(e[1])] if len(e) > 1 else []) for e in X["els"]], "lexer_ws": X["lexer_ws"], "keywords": X["keywords"]},
         "source_fingerprint": repo_fingerprint([F_PLUGIN, F_TOK, F_PARSE]),
         "bounds": dict(B, alphabet="ASCII; identifiers <= id characters, whitespace runs <= ws characters over the lexer's whitespace set", continuations=CONTINUATIONS),
         "queries": queries, "queries_discharged": n_q,
@@ -451,7 +535,7 @@ def main():
         "classification only (entrypoint vs field/pointer, type name, field name); path_for_artifact (PathBuf arithmetic, module settings) and the AST rewriting are outside the claim",
         "ASCII literals; the BOM (skipped by the lexer, not matched by \\s) and other non-ASCII whitespace are outside the bound",
         "the literal continues after the header with one of a fixed list of valid continuations (listed in the evidence); the solver decides identifier and whitespace characters, the runner enumerates lengths and continuations",
-        "the regex subset supported by the translator is \\s*, alternations of plain words, one-or-more of a character class, escaped literal characters; anything else is inconclusive",
+        "the regex subset supported by the translator: \\s, character classes, literals, each optionally with + or *, capturing groups of those or of an alternation of plain words, greedy runs that cannot overlap their continuation (checked); anything else is inconclusive",
     ]
     write_evidence(PROP, "other", cov, assumptions, time.time() - t0, len(violations))
     finish(PROP, violations, known_lines, infra)
